@@ -120,7 +120,7 @@ CHECKS['C02'] = {
         {'name': 'c02_parsers', 'src': ['harness/C02_parsers.cpp'], 'ccodecs': True, 'meter': True, 'quick_n': 1200000, 'thorough_n': 16000000, 'maxlen': 500, 'min_nontrivial': 50000, 'timeout_is_violation': True, 'budget': 8,
          'class_floors': {'entry_cpp': 50000, 'entry_mini': 50000, 'entry_micro': 50000, 'entry_templated': 30000, 'reached_field_parsing': 100000, 'cpp_accepted': 5000, 'cpp_rejected': 20000}},
         {'name': 'c02_gateways', 'src': ['harness/C02_gateways.cpp'], 'ccodecs': True, 'quick_n': 1500000, 'thorough_n': 15000000, 'maxlen': 700, 'min_nontrivial': 30000, 'timeout_is_violation': True, 'budget': 20,
-         'class_floors': {'binary_unlimited': 3000, 'binary_limit_1MiB': 3000, 'templating': 3000, 'text': 3000, 'slip': 3000, 'websocket_server': 3000, 'websocket_client': 3000, 'packet_tunnel': 3000, 'mini_packet_tunnel': 3000, 'mini_c_gateway': 3000, 'micro_c_gateway': 3000, 'reuse_after_reset_checked': 30000}},
+         'class_floors': {'binary_unlimited': 3000, 'binary_limit_1MiB': 3000, 'templating': 3000, 'text': 3000, 'slip': 3000, 'websocket_server': 3000, 'websocket_client': 3000, 'packet_tunnel': 3000, 'mini_packet_tunnel': 3000, 'mini_c_gateway': 3000, 'micro_c_gateway': 3000, 'reuse_after_reset_checked': 30000, 'case_stream_of_2048_bytes_or_more': 20000}},
     ],
 }
 
@@ -218,14 +218,14 @@ CHECKS['C08'] = {
     'technique': 'differential property testing across the four Message implementations shipped in the tree (C++, C mini, C micro, Python) plus an independent reference encoder of the documented layout: parse-walk-reserialise and build-from-model legs per implementation, 8-byte frame comparison across the C++/C gateways and the Python transceiver over loopback TCP',
     'level_text': ('Generated-input differential search: for each model Message the C++ bytes must equal the reference encoding; mini and micro must parse them to the model content (walk through their getters), re-serialise / rebuild them to the same bytes, and the C++ parser must accept what they produce; '
                    'the unmodified lang/python3/message.py (subprocess, batches of python-safe cases) must parse to the model content, report the exact size, re-serialise and rebuild through its Put* API to the same bytes; the gateways must emit <len LE><Enc0 LE><bytes>. Held = all implementations agreed on everything generated.'),
-    'level_note': 'Trusted: the reference encoder (models/refmsg.h). Python-safe restriction: valid UTF-8 names and strings, no NaN inside Point/Rect (Python widens float32 to double and back). C codecs: no zero-item fields (neither side can build them).',
+    'level_note': 'Trusted: the reference encoder (models/refmsg.h). Python-safe restriction: valid UTF-8 names and strings, no NaN inside Point/Rect (Python widens float32 to double and back). C codecs: no zero-item fields (neither side can build them). Zero-length raw items are generated; MicroMessage cannot hand one out that ends its field (UMFindData reports an error, as Message::FindData does): counted as an observation, the rest of the Message is still compared.',
     'rule': ('Byte-decoded model Messages over the common repertoire (all fixed numeric types, bool, string, point, rect, raw, nested to depth 3; 7 field names incl. empty and two non-ASCII). Non-trivial: >= 3 distinct field types or nesting >= 1. Distinct: hash of the flattened bytes. '
              'Up to 6000 python-safe cases per worker are written to batch files and verified by the Python peer; 150 of them also travel through a MessageTransceiverThread over loopback TCP.'),
     'assumptions': ['loopback TCP available for the Python transceiver leg (reported inconclusive otherwise)'],
     'targets': [
         {'name': 'c08_wire', 'src': ['harness/C08_wire.cpp'], 'ccodecs': True, 'quick_n': 1500000, 'thorough_n': 15000000, 'maxlen': 500, 'min_nontrivial': 200000,
          'worker_env': _c08_worker_env, 'post': _c08_post, 'replay_hook': _c08_replay, 'replay_aliases': ['c08_python'],
-         'class_floors': {'case_python_safe': 50000, 'case_nesting_ge_1': 20000, 'case_three_or_more_field_types': 50000, 'emitted_for_python_peer': 20000}},
+         'class_floors': {'case_python_safe': 50000, 'case_nesting_ge_1': 20000, 'case_three_or_more_field_types': 50000, 'emitted_for_python_peer': 20000, 'case_with_zero_length_raw_item': 10000}},
     ],
 }
 
@@ -325,15 +325,15 @@ CHECKS['C19'] = {
 CHECKS['C10'] = {
     'level': 'exploration',
     'technique': 'schedule-exploring property testing: Ref<>/RefCountable/ObjectPool on the harness-owned scheduler with yield points before and after every atomic reference-count operation and around the pool mutex; generated reference-manipulation scripts; identity-stamp and release-state-machine invariants; plus a free-running ThreadSanitizer supplement for atomicity of the primitives',
-    'level_text': ('Generated (script, schedule) search: 1-3 threads x 2-8 operations (copy, reset, obtain from a small pool or from the heap, swap, move, const-cast, publish to / take from a mutex-guarded mailbox, temporaries) over ObjectPool<Obj,128> with maxPoolSize 0-4 so slabs are created, recycled and deleted within a run; single-threaded histories included. '
-                   'Oracle: a referenced object keeps its identity stamp, liveness mark and non-zero count; an obtained object is in default state, unowned and count 0; no object is released twice; constructor and destructor counts agree once the pool is gone; ObjectPool::PerformSanityCheck; ASan for use-after-free/double free. '
+    'level_text': ('Generated (script, schedule) search: 1-3 threads x 2-8 operations (copy, reset, obtain from a small pool or from the heap, swap, move, const-cast, publish to / take from a mutex-guarded mailbox, temporaries, non-counting references switched to counting and back by assignment and in place) over ObjectPool<Obj,128> with maxPoolSize 0-4 so slabs are created, recycled and deleted within a run; single-threaded histories included. '
+                   'Oracle: a referenced object keeps its identity stamp, liveness mark and a count of at least the thread\'s own counting references (exactly the number of counting references in single-threaded histories); an obtained object is in default state, unowned and count 0; no object is released twice; constructor and destructor counts agree once the pool is gone; ObjectPool::PerformSanityCheck; ASan for use-after-free/double free. '
                    'Second target (c10_tsan): the same operations free-running on 8 real threads under ThreadSanitizer, which sees what the scheduler cannot (loss of atomicity inside a primitive, a dropped mutex guard). Held = no explored schedule and no TSan run reported a problem; TSan silence proves nothing beyond the runs made.'),
     'level_note': SC_NOTE,
     'rule': ('Byte-decoded cases: configuration + scripts + schedule. Non-trivial: (multi-threaded) at least one preemption and an object whose final release was performed by a thread other than the one that obtained it; (single-threaded) >= 2 objects obtained. Distinct: hash of configuration, scripts and choices. c10_tsan counts iterations.'),
     'assumptions': [],
     'targets': [
         {'name': 'c10_refcount', 'src': ['harness/C10_refcount.cpp'], 'quick_n': 600000, 'thorough_n': 10000000, 'maxlen': 300, 'min_nontrivial': 50000, 'budget': 120,
-         'class_floors': {'case_single_threaded_history': 50000, 'case_multi_threaded': 200000, 'case_final_release_by_another_thread': 50000}},
+         'class_floors': {'case_single_threaded_history': 50000, 'case_multi_threaded': 200000, 'case_final_release_by_another_thread': 50000, 'case_non_counting_reference_switched_to_counting': 10000}},
         {'name': 'c10_tsan', 'src': ['harness/C10_tsan.cpp'], 'variant': 'tsan', 'fuzz': False, 'coverage': False, 'quick_n': 24000, 'thorough_n': 400000, 'maxlen': 16, 'min_nontrivial': 5000, 'budget': 300, 'repro_min': 1,
          'class_floors': {'thread_echo_runs': 1000}},
     ],
@@ -373,14 +373,14 @@ CHECKS['C13'] = {
 CHECKS['C05'] = {
     'level': 'exploration',
     'technique': 'differential property testing on the real server run in-process: (a) generated multi-key routed Messages, per-inbox copy counts against receivers computed clause by clause from the published node sets; (b) one multi-key traversal (GETDATA) against PathMatcher::MatchesPath applied to every node path',
-    'level_text': ('(a) Four sessions on two hosts publish generated node sets, optionally enable reflect-to-self or a default route; 1-8 Messages are sent with 0-3 keys (absolute with literal or wildcard host/session clauses, relative, session level or node levels, equal and different depths), optional filters, forged session fields, interleaved with server steps. Each inbox must hold exactly one copy for each selected session and none otherwise, in per-sender order, naming the true sender. '
+    'level_text': ('(a) Four sessions on two hosts publish generated node sets, optionally enable reflect-to-self or a default route, and replace or remove the default route in mid-history; 1-8 Messages are sent with 0-3 keys (absolute with literal or wildcard host/session clauses, relative, session level or node levels, equal and different depths), optional filters, forged session fields, interleaved with server steps. Each inbox must hold exactly one copy for each selected session and none otherwise, in per-sender order, naming the true sender. '
                    '(b) Three publishers (node names incl. literal "a,b" and "a*") and an observer that sends one GETDATA with 1-4 keys over 19 clause forms: the reply\'s node set must equal the set MatchesPath selects over all node paths, with no path reported twice. Held = equal on everything generated.'),
     'level_note': RH_NOTE + ' The multi-pattern traversal is exercised as ONE multi-key NodePathMatcher traversal, as the server performs it (a union of single-pattern traversals hides the conspiracy guard and the skip-to-next-session logic).',
     'rule': ('Byte-decoded cases, half routing, half traversal. Non-trivial: the Message / GETDATA carries two keys of equal depth, or keys of different depths (routing), or a key mixing literal and wildcard clause levels (traversal: both the hash-lookup fast path and the wildcard path run). Distinct: hash of the rendered keys.'),
     'assumptions': ['path clauses are non-empty and patterns do not end in a lone backslash (PutPathString and GetPathDepth count empty clauses differently; exercised only under C07)'],
     'targets': [
         {'name': 'c05_routing', 'src': ['harness/C05_routing.cpp'], 'quick_n': 300000, 'thorough_n': 2000000, 'maxlen': 300, 'min_nontrivial': 5000, 'budget': 120,
-         'class_floors': {'mode_routing': 100000, 'mode_traversal': 100000, 'case_two_keys_of_equal_depth': 50000, 'case_keys_of_different_depths': 20000, 'case_with_filters': 10000, 'case_key_mixing_literal_and_wildcard_levels': 20000}},
+         'class_floors': {'mode_routing': 100000, 'mode_traversal': 100000, 'case_two_keys_of_equal_depth': 50000, 'case_keys_of_different_depths': 20000, 'case_with_filters': 10000, 'case_key_mixing_literal_and_wildcard_levels': 20000, 'case_keyless_message_after_default_route_was_replaced': 1000}},
     ],
 }
 
